@@ -80,6 +80,7 @@ private:
     //-------------//
     // Ambiguities //
     //-------------//
+    void catalogNamesAsOfNode(const SyntaxNode*);
     Action visitAmbiguousTypeNameOrExpressionAsTypeReference(const AmbiguousTypeNameOrExpressionAsTypeReferenceSyntax*) override;
     Action visitAmbiguousCastOrBinaryExpression(const AmbiguousCastOrBinaryExpressionSyntax*) override;
     Action visitAmbiguousExpressionOrDeclarationStatement(const AmbiguousExpressionOrDeclarationStatementSyntax*) override;
